@@ -33,7 +33,7 @@ type Config struct {
 
 func DefaultConfig() Config {
 	return Config{StepLimit: 20_000_000, MaxAlloc: 1 << 16, MaxThreads: 8, MaxSwitches: 2, Unwind: 12,
-		ConcretizeLimit: 8, MaxPaths: 200000, Timeout: 10 * time.Minute, Workers: 8, SolverCapMs: 1500,
+		ConcretizeLimit: 8, MaxPaths: 200000, Timeout: 30 * time.Minute, Workers: 8, SolverCapMs: 1500,
 		WorkDir: "/tmp", MaxViolPerLabel: 2, SplitMax: 8}
 }
 
